@@ -3,18 +3,25 @@ NOTES = ('Contract-based deductive verification of the real code: functions are 
          'side-car contracts are woven on, Verus discharges every obligation. exit 2 = undecided (never an alarm). See DESIGN.md.')
 ENGINES = [
     {'name': 'E1 verus-extract', 'path': '/verif/check, /verif/lib/{rsitems,weave}.py, /verif/units/*.vu, /verif/prelude/*.rs',
-     'serves_properties': ['C01', 'C02', 'C04', 'C05', 'C06', 'C08', 'C13', 'C15', 'C19'], 'kind_free_text': 'mechanical extraction of /repo Rust items into single-file Verus units with side-car contracts; Z3 back end'},
-    {'name': 'E2 mast-lemmas', 'path': '/verif/tools/mastdump, /verif/lib/e2gen.py, /verif/masm_specs/*.py, /verif/units/masm_*.vu', 'serves_properties': ['C09', 'C16'], 'kind_free_text': 'masm sources assembled by /repo\'s assembler, MAST dumped and turned into Verus lemmas over the hub operation semantics'},
+     'serves_properties': ['C01', 'C02', 'C04', 'C05', 'C06', 'C07', 'C08', 'C13', 'C15', 'C19'], 'kind_free_text': 'mechanical extraction of /repo Rust items into single-file Verus units with side-car contracts; Z3 back end'},
+    {'name': 'E2 mast-lemmas', 'path': '/verif/tools/mastdump, /verif/lib/e2gen.py, /verif/masm_specs/*.py, /verif/units/masm_*.vu', 'serves_properties': ['C05', 'C09', 'C16'], 'kind_free_text': 'masm sources assembled by /repo\'s assembler, MAST dumped and turned into Verus lemmas over the hub operation semantics'},
     {'name': 'E3 kani', 'path': '/verif/kani/*', 'serves_properties': [], 'kind_free_text': 'Kani/CBMC harness crates with path deps on /repo crates; complete for finite domains, otherwise labelled bounded'},
 ]
 PENDING = 'not yet claimed: machinery for this property is still being built (see DESIGN.md §10 build order)'
 NOT_APPLICABLE = {
-    'C01': PENDING, 'C02': PENDING, 'C03': PENDING, 'C04': PENDING, 'C05': PENDING, 'C06': PENDING, 'C07': PENDING,
+    'C01': PENDING, 'C02': PENDING, 'C03': PENDING, 'C04': PENDING, 'C05': PENDING, 'C06': PENDING,
     'C08': PENDING, 'C09': PENDING, 'C10': PENDING, 'C11': PENDING, 'C12': PENDING, 'C13': PENDING, 'C14': PENDING,
     'C16': PENDING, 'C18': PENDING, 'C19': PENDING,
     'C17': 'BLAKE3/SHA-256/Keccak-256 masm programs (800-3500 straight-line u32 ops) vs reference functions is a full bit-vector equivalence of compression functions; no function contract within reach of Verus/Z3 or Kani decides it (DESIGN §7 C17)',
 }
 META = {
+    'C07': {
+        'engine': 'E1 verus-extract',
+        'technique': 'Verus contracts on the real memory operations, Chiplets memory front-end, System/Stack context switches and the call/syscall/dyn block executors against hub rules (rule_call / rule_syscall / rule_dyn) with memory and context in the state; memory-frame invariant (mem_frame) carried by every executor',
+        'design_ref': '§7 C07, §11',
+        'level_text': 'Deductive proof for all programs, nestings and inputs: memory operations read/write exactly the addressed word of the CURRENT context (never-written cells read as zeros, an element store changes element 0 only, addresses >= 2^32 fail); call/dyncall run the callee in a fresh context (id = clock + 1) that sees only the top 16 elements, must return with depth exactly 16 (else InvalidStackDepthOnReturn), after which the caller\'s context id, fmp, fn_hash, every stack element below the top 16 and - for a non-root caller - every memory cell of its context are exactly as before; syscall runs in the root context with fmp = 2^31, only for kernel procedures, never from inside a syscall; every block leaves the memory of all other pre-existing non-root contexts untouched.',
+        'level_note': 'Trusted / assumed: the memory chiplet as word RAM (bounded stand-in memory_model on the real chiplet), decoder block-stack contracts (proved separately in unit decoder), kernel ROM lookup, hub rules as the semantics definition. Not decided: non-aliasing of procedure locals (needs the assembler\'s fmp arithmetic), which hash the assembler stores in CALL nodes.',
+    },
     'C15': {
         'engine': 'E1 verus-extract',
         'technique': 'Verus function contracts woven onto code extracted from /repo each run (System::advance_clock, Process::execute_op/advance_clock, block executors with decreases, ExecutionOptions::new)',
@@ -33,8 +40,8 @@ META = {
         'engine': 'E1 verus-extract',
         'technique': 'Verus contracts on the real stack primitives (whole-view postconditions) and on every op_* function against hub relations written from the docs; execute_op dispatcher proved against op_rel',
         'design_ref': '§7 C05',
-        'level_text': 'Deductive proof for all stack states (any depth >= 16, any operand values): L1 Stack::{shift_left,shift_right,copy_state,set,..} with zero-fill at depth 16, LIFO overflow, every deeper element unchanged; L2 every field/u32/stack-manipulation/system/ext2/push operation ensures next_view == sem_X(view) and fails exactly when fail_X(view).',
-        'level_note': 'Trusted: Felt model; bitwise chiplet contract (u32and/xor); host = arbitrary oracle. Unchecked u32 arithmetic ops are specified (as documented) for u32 operands only. L3 (assembly instruction -> op sequence via the real assembler) and the text parser are not decided yet.',
+        'level_text': 'Deductive proof for all stack states (any depth >= 16, any operand values): L1 Stack::{shift_left,shift_right,copy_state,set,..} with zero-fill at depth 16, LIFO overflow, every deeper element unchanged; L2 every field/u32/stack-manipulation/system/ext2/push operation ensures next_view == sem_X(view) and fails exactly when fail_X(view); L3 the operation sequences the assembler emits for single instructions compute the documented instruction results.',
+        'level_note': 'Trusted: Felt model; bitwise chiplet contract (u32and/xor); host = arbitrary oracle. Unchecked u32 arithmetic ops are specified (as documented) for u32 operands only. L3: 180+ assembly instructions (field, u32, stack manipulation, ext2, push) are assembled by /repo\'s assembler and proved against the documented instruction semantics (units masm_instr*); memory/crypto/advice instructions and the text parser are not decided.',
     },
     'C06': {
         'engine': 'E1 verus-extract',
@@ -48,7 +55,7 @@ META = {
         'technique': 'Verus loop invariants on the real execute_op_batch / execute_span_block against the documented row stream (batch_stream), using batch_ok proved for batch_ops',
         'design_ref': '§7 C13',
         'level_text': 'Deductive proof for all programs: the operations the decoder records for a span are exactly SPAN, the batches\' operations in order with a NOOP only after a group-ending immediate op and one per missing group up to the next power of two, RESPAN between batches, END; control blocks record JOIN/SPLIT/LOOP/REPEAT/END around their children\'s streams for the decisions taken; block starts and ends are properly nested.',
-        'level_note': 'Trusted: decoder method contracts (one row per call with the named opcode) are assumed, not yet proved against decoder/trace.rs; call/syscall/dyn executors assumed; final-row program hash not decided.',
+        'level_note': 'Trusted: decoder method contracts (one row per call with the named opcode) are assumed in unit executor; unit decoder proves them on the real Decoder/DecoderTrace/BlockStack for the control-block methods and row writers (span wrappers not yet); final-row program hash not decided.',
     },
     'C04': {
         'engine': 'E1 verus-extract',
@@ -62,7 +69,7 @@ META = {
         'technique': 'Verus totality proofs (no precondition on the bytes) and invariant-establishing postconditions on the real decoders of core/air types, against assumed ByteReader/ByteWriter contracts',
         'design_ref': '§7 C19/C10',
         'level_text': 'Deductive proof for all byte strings: StackOutputs/StackInputs/Kernel decoders and ExecutionProof::from_bytes/HashFunction::try_from return Ok or Err without panicking; accepted StackOutputs/Kernel satisfy the constructors\' invariants (canonical elements, >= 16 items, consistent overflow addresses, <= 255 distinct kernel procedures); StackOutputs::new rejects exactly non-canonical / inconsistent data.',
-        'level_note': 'Trusted: winter-utils reader/writer contracts, Kernel::new closure-based body (contract assumed). Not decided: AST / library decoders of the assembly crate, iterator-closure constructors (try_from_values, with_stack_values).',
+        'level_note': 'Trusted: winter-utils reader/writer contracts, std sort/windows helper contracts inside Kernel::new. LibraryPath::read_from is covered by a bounded exhaustive run only (labelled bounded). Not decided: AST / library decoders of the assembly crate, iterator-closure constructors (try_from_values, with_stack_values).',
     },
     'C02': {
         'engine': 'E1 verus-extract',
